@@ -75,11 +75,12 @@ def extractStorageLen (w : Word) : Except String Nat :=
   let length := if oop = 0 then (w / 2) % 128 else w / 2
   let isLess := if length < 32 then 1 else 0
   if oop = isLess then .error "storage encoding error"
-  else if length ≥ U64 then .error "storage too large to load"
+  else if length ≥ U64 ∨ length > U64 - 32 then .error "storage too large to load"   -- `!IsUint64() || > MaxUint64-31`
   else .ok length
 
-/-- number of 32-byte data slots read for a long string (overflow-free ceiling) -/
-def slotCount (length : Nat) : Nat := length / 32 + (if length % 32 = 0 then 0 else 1)
+/-- number of 32-byte data slots read for a long string: `u64Ceiling(length, 32) = (length + 31) / 32` in uint64
+    arithmetic — the sum wraps for a length above 2^64 - 32, which is why `extractStorageLen` refuses those (repair D21) -/
+def slotCount (length : Nat) : Nat := ((length + 31) % U64) / 32
 
 /-- the data area of a long string: `n` consecutive slots from `k` (slot arithmetic wraps mod 2^256) -/
 def readSlots (st : Word → Word) (k : Word) : Nat → Bytes
